@@ -605,7 +605,7 @@ def gen_big(tier, rng):
                     down = (["pop 0 1", "pop 0 1"] if "pop" in has else [f"err 0 {n - 1} {n}", "err 0 0 1"])
                     walk = [f"fil 0 {n - 1} 3", f"fil 0 1 {n + 7}"] + ([f"fil 0 1 {n + 9}"] if n < cap else []) + down
                     out += big_both(fam, cap, walk + ["cpc 0", "mvc 0"])
-                    if large and (quick or rng.random() < 0.6):
+                    if large and (quick or rng.random() < 0.8):
                         continue           # thorough: a sample of the secondary walks at the large capacities (0.2 s per line in the driver)
                     out += big_both(fam, cap, [f"fil 0 {n} 3", "cpa 1", "mva 1"] + (["pop 1 1"] if "pop" in has else ["err 1 0 1"]) + ["mva 0"])
                     out += big_both(fam, cap, [f"fil 1 {n} 5"])          # only the destructor sees the count
@@ -620,7 +620,7 @@ def gen_big(tier, rng):
                     # one element too many / one pop too many: the precondition fires exactly there
                     out += big_both(fam, cap, [f"fil 0 {cap} 3", "fil 0 1 1"] if kind != "ss" else [f"fil 0 {cap} 3", "fil 0 1 99999", "mvc 0"])
                 # ---- random walks over the limits
-                k = ((1 if rng.random() < 0.1 else 0) if quick else 5) if large else (6 if quick else 120)
+                k = ((1 if rng.random() < 0.1 else 0) if quick else 3) if large else (6 if quick else 120)
                 for _ in range(k):
                     out += big_both(fam, cap, big_history(kind, fl, cap, rng, rng.randint(3, 5 if large else 9), invalid=rng.random() < 0.1))
     return out
